@@ -1,6 +1,7 @@
 import DeltaModel.Vte
 import DeltaModel.Generated.AnsiSgr
 import DeltaModel.Generated.RawLine
+import DeltaModel.Generated.MapStyles
 /-!
 Model of `/repo/src/ansi/iterator.rs` (`AnsiElementIterator`, `ansi_term_style_from_sgr_parameters`)
 and `/repo/src/ansi/mod.rs` (`strip_ansi_codes`, `measure_text_width`, `truncate_str_impl`,
@@ -362,6 +363,34 @@ def gitDefaultMinus : Style :=
   { fg := some (mkColor Generated.gitDefaultMinusFg.1 Generated.gitDefaultMinusFg.2) }
 def gitDefaultPlus : Style :=
   { fg := some (mkColor Generated.gitDefaultPlusFg.1 Generated.gitDefaultPlusFg.2) }
+
+/-- `ansi_term_color_equality_key` (style.rs): named colour `n` and `Fixed(n)` share a key, a 24-bit
+colour has its own. -/
+def colorKey : Color → Nat × Nat × Nat × Nat
+  | .named n => (n, 255, 255, 255)
+  | .fixed n => (n, 255, 255, 255)
+  | .rgb r g b => (r, g, b, 0)
+
+/-- `ansi_term_style_equality_key`: the hash-map key of `--map-styles`. -/
+abbrev StyleKey := List Bool × Option (Nat × Nat × Nat × Nat) × Option (Nat × Nat × Nat × Nat)
+
+def styleKey (s : Style) : StyleKey :=
+  ([s.bold, s.dimmed, s.italic, s.underline, s.blink, s.reverse, s.hidden, s.strike],
+   s.fg.map colorKey, s.bg.map colorKey)
+
+/-- A colour as `parse_style` yields it at a colour depth: with `trueColor = false` a 24-bit colour is
+reduced to a 256-colour number (`quant` = the `ansi_colours` quantisation, a parameter). -/
+def atDepth (quant : Nat → Nat → Nat → Nat) (trueColor : Bool) : Color → Color
+  | .rgb r g b => if trueColor then .rgb r g b else .fixed (quant r g b)
+  | c => c
+
+def Style.atDepth (quant : Nat → Nat → Nat → Nat) (trueColor : Bool) (s : Style) : Style :=
+  { s with fg := s.fg.map (Ansi.atDepth quant trueColor), bg := s.bg.map (Ansi.atDepth quant trueColor) }
+
+/-- The `--map-styles` key under which the style written as `key` is stored when delta paints at the
+depth `configured` (`parse_styles_map`; which depth the key side is parsed at is read from the source). -/
+def mapStylesKey (quant : Nat → Nat → Nat → Nat) (configured : Bool) (key : Style) : StyleKey :=
+  styleKey (key.atDepth quant (Generated.mapStylesKeyTrueColor configured))
 
 /-- `maybe_raw_line(..).is_some()` (src/handlers/hunk.rs): is the hunk line kept with its input
 colouring? The boolean combination is `Generated.emitRawLine`, read from the source on every run.
